@@ -4,6 +4,7 @@ the runner around `bsx` / `llbuild` with the vtool logical clock."""
 import os
 import shutil
 import subprocess
+import time
 
 from hypothesis import strategies as st
 
@@ -190,6 +191,99 @@ class Workspace:
 
 def unhx(h):
     return "" if h == "-" else bytes.fromhex(h).decode("latin-1")
+
+
+class Session:
+    """ONE bsx process / ONE BuildSystemFrontend that performs several builds (bsx --interactive): the
+    client workflow in which the system object is reset and reused, also after a failed or cancelled build.
+    The description is loaded once, so a description edit needs a new session."""
+
+    def __init__(self, ws, jobs=None, db=True, fs="default", buildfile="build.llbuild", keep_going=False,
+                 timeout=120):
+        import tempfile
+        self.ws = ws
+        self.timeout = timeout
+        cmd = [BSX, "--interactive", "--chdir", ws.dir, "-f", buildfile]
+        if keep_going:
+            cmd += ["--keep-going"]
+        cmd += ["--db", "build.db"] if db else ["--no-db"]
+        cmd += ["--serial"] if not jobs else ["-j", str(jobs)]
+        if fs != "default":
+            cmd += ["--fs", fs]
+        self.errf = tempfile.TemporaryFile()
+        self.p = subprocess.Popen(cmd, stdin=subprocess.PIPE, stdout=subprocess.PIPE, stderr=self.errf,
+                                  env=ws.env(), cwd=ws.dir)
+        self.dead = False
+        self.buf = b""
+
+    def _stderr(self):
+        self.errf.seek(0)
+        return self.errf.read().decode("latin-1")
+
+    def build(self, target=None, node=None):
+        import select
+        if self.dead:
+            return BuildResult(-998, [], "session already dead", self.ws.take_log())
+        req = ("node " + node.encode("latin-1").hex()) if node is not None else (
+            "build " + (target.encode("latin-1").hex() if target else "-"))
+        events, rc = [], None
+        try:
+            self.p.stdin.write((req + "\n").encode())
+            self.p.stdin.flush()
+            deadline = time.monotonic() + self.timeout
+            fd = self.p.stdout.fileno()
+            finished = False
+            while not finished:
+                # lines already buffered first (select on the descriptor knows nothing about them)
+                while b"\n" in self.buf:
+                    raw, self.buf = self.buf.split(b"\n", 1)
+                    t = tuple(raw.decode("latin-1").split(" "))
+                    if t[0] == "end":
+                        finished = True
+                        break
+                    if t[0] == "result":
+                        rc = 0 if t[1] == "1" else 1
+                    events.append(t)
+                if finished:
+                    break
+                left = deadline - time.monotonic()
+                if left <= 0 or not select.select([fd], [], [], left)[0]:
+                    self.close(kill=True)
+                    return BuildResult(-999, events, self._stderr(), self.ws.take_log(), timed_out=True)
+                chunk = os.read(fd, 65536)
+                if not chunk:
+                    rc = None                     # the process died before "end"
+                    break
+                self.buf += chunk
+        except BrokenPipeError:
+            pass
+        if rc is None:
+            self.dead = True
+            self.p.wait()
+            rc = self.p.returncode if self.p.returncode not in (0, 1) else -997
+        return BuildResult(rc, events, self._stderr(), self.ws.take_log())
+
+    def close(self, kill=False):
+        if self.p.poll() is None:
+            try:
+                if kill:
+                    self.p.kill()
+                else:
+                    self.p.stdin.write(b"quit\n")
+                    self.p.stdin.flush()
+                    self.p.stdin.close()
+            except (BrokenPipeError, OSError):
+                pass
+            try:
+                self.p.wait(timeout=30)
+            except subprocess.TimeoutExpired:
+                self.p.kill()
+                self.p.wait()
+        self.dead = True
+        try:
+            self.p.stdout.close()
+        except OSError:
+            pass
 
 
 class BuildResult:
